@@ -87,8 +87,10 @@ def defWeight (custom : List (Str × Str)) : Nat := (custom.map fun e => 2 * e.2
 def customStep (env : CharEnv) (L : Lexicon) (acc : Custom) (kv : Str × Str) : M Custom :=
   let name := lower kv.1
   if !(Rx.isMatch env L.reCustom name) then .error { kind := .badCustomName, pattern := [], offset := 0 }
-  else if acc.any (fun e => e.1 == name) then .error { kind := .customCollision, pattern := [], offset := 0 }
-  else .ok (acc.set (cssUnescape env L name) (.src kv.2))
+  else
+    let key := cssUnescape env L name
+    if acc.any (fun e => e.1 == key) then .error { kind := .customCollision, pattern := [], offset := 0 }
+    else .ok (acc.set key (.src kv.2))
 
 theorem processCustom_eq (env : CharEnv) (L : Lexicon) (custom : List (Str × Str)) :
     processCustom env L custom = custom.foldlM (customStep env L) [] := rfl
